@@ -4,6 +4,8 @@
 #include "qsv.h"
 mpq_t __zeroLpNum_mpq__, __oneLpNum_mpq__, __MaxLpNum_mpq__, __MinLpNum_mpq__;
 mpq_t mpq_ILL_MAXDOUBLE, mpq_ILL_MINDOUBLE;
+/* tolerances of the rational instance: lpdata.c:140-145 sets them to 4.5036e9 * epsLpNum, and mpq_epsLpNum is zero */
+mpq_t mpq_DFEAS_TOLER, mpq_PFEAS_TOLER;
 void qsv_init_globals(void)
 {
 	qsv_setnum(__zeroLpNum_mpq__, 0);
@@ -12,4 +14,6 @@ void qsv_init_globals(void)
 	qsv_setnum(__MinLpNum_mpq__, -QSV_INF);
 	qsv_setnum(mpq_ILL_MAXDOUBLE, QSV_INF);
 	qsv_setnum(mpq_ILL_MINDOUBLE, -QSV_INF);
+	qsv_setnum(mpq_DFEAS_TOLER, 0);
+	qsv_setnum(mpq_PFEAS_TOLER, 0);
 }
